@@ -262,6 +262,7 @@ func runCheck(prop, tier string, seed uint64, skipLean bool) int {
 		fmt.Fprintf(os.Stderr, "unknown property %s\n", prop)
 		return 2
 	}
+	ctxProp = prop
 	ctx := &Ctx{Prop: prop, Tier: tier, Seed: seed, Scale: 1}
 	if tier == "thorough" {
 		ctx.Scale = 15
